@@ -40,7 +40,7 @@ Theorem C14_open_fails_or_is_complete when order corder b :
 Proof. exact (open_ro_fault_spec c oeq plan err_only S g f_total g_closed when order corder b). Qed.
 
 Theorem C14_historic_open_fails_or_is_complete vsn when order corder vs ts b :
-  versions_ok_in c S b [PMerged; PCur] (apply_order_multi order vsn) vs ts ->
+  versions_ok_in c S b [PCur; PMerged] (apply_order_multi order vsn) vs ts ->
   spec oeq plan b (open c true (Some vsn) when order corder)
        (fun h => view_fold c ts = Some (h_tree h) /\ h_ro h = true).
 Proof. exact (open_hist_fault_spec c oeq plan err_only S g f_total g_closed vsn when order corder vs ts b). Qed.
